@@ -10,6 +10,7 @@ package main
 
 import (
 	"bytes"
+	"encoding/binary"
 	"encoding/hex"
 	"fmt"
 	"math/big"
@@ -465,6 +466,8 @@ func rsIndices(e *Env) {
 				addr = sdk.ValAddress(r.Bytes(1 + r.N(31)))
 			}
 			s1, s2 = datypes.ValidatorSeed(addr), 1024
+			// seed = first 8 bytes (big endian) of MiMC(address), recomputed here
+			e.Oracle("seed_is_mimc_prefix", s1 == binary.BigEndian.Uint64(mimcOf(addr)[:8]), "addrlen=%d", len(addr))
 		} else {
 			s1, s2 = r.Next(), r.Next()
 			if r.N(6) == 0 {
